@@ -35,7 +35,16 @@ def main():
     if not ctx.model_broken:
         mod = importlib.import_module(a.prop.lower())
         try:
-            mod.main(ctx)
+            if a.replay:
+                import json
+                with open(a.replay) as fh:
+                    obj = json.load(fh)
+                if hasattr(mod, 'replay') and not obj.get('broken'):
+                    mod.replay(ctx, obj)
+                else:  # a replay that only names a broken theorem/correspondence: run the check
+                    mod.main(ctx)
+            else:
+                mod.main(ctx)
         except BaseException as e:
             if isinstance(e, KeyboardInterrupt):
                 raise
